@@ -32,8 +32,7 @@ pub struct World {
 }
 
 pub fn world() -> World {
-    crate::hashseed::reset(1);
-    let a = std::thread::spawn(|| Arena::load_no_inits("rotation", ARENA_CODE)).join().expect("arena");
+    let a = Arena::load_no_inits("rotation", ARENA_CODE);
     let vt = a.types[0];
     let node = |id: &str| a.nw.all_nodes().find(|n| a.nw.node(*n).id() == id).unwrap_or_else(|| panic!("node {}", id));
     let empty = Schedule::empty(a.nw.clone());
